@@ -1,10 +1,111 @@
 /-
-  TwProofs.C15 — property theorems (see DESIGN.md, section 6).
+  TwProofs.C15 — one loaded Template and the string API are safe for concurrent use.
+
+  What a theorem can carry here, and what it cannot.  The shared state of the package after
+  loading is: the configuration, the registered functions, the loaded templates (all read-only
+  on render paths) and one flag that `EvaluateString` / `EvaluateFile` / the built-in error page
+  store to.  The regenerated facts (TIE-1) pin this down on the real sources on every run:
+  `renderPathWrites_ok` (the only package-level write on a render path is that flag, and it goes
+  through an atomic) and `stateWrites_ok` (every other write sits in `Configure` / `Register*`).
+  On top of that the model gives the logical half of the property:
+
+  * every state reachable by *any* interleaving of the stores that concurrent renders perform
+    differs from the initial state in the flag only (`reachable_frame`), and
+  * what a call returns is the same in every such state (`concurrent_result_is_sequential`) —
+    so whatever the scheduler does between the steps of a call, and whatever other calls run
+    meanwhile, the call returns exactly what it returns when run alone.
+
+  Not modelled (label: partial): the Go memory model and the runtime — that reads of the
+  read-only state are race-free because nothing writes it is the facts' statement, and the
+  absence of races in the compiled code is what the `-race` workloads of the harness observe.
 -/
 import TwModel
 import TwSpec
+import TwProofs.C16
+import TwProofs.Facts
 
 namespace Tw.C15
-open Tw
+open Tw Tw.C16
+
+/-- one atomic step a concurrently running render may take on the shared package state: a store
+    to the mode flag (the only shared location a render writes, F9) -/
+inductive MicroStep : World → World → Prop
+  | store (w : World) (v : Bool) : MicroStep w { w with uses := v }
+
+/-- the states reachable under an arbitrary interleaving of such steps -/
+inductive Reachable (w0 : World) : World → Prop
+  | init : Reachable w0 w0
+  | step (w w' : World) : Reachable w0 w → MicroStep w w' → Reachable w0 w'
+
+/-- every operation of the API moves the state by such stores only -/
+theorem operations_are_flag_stores (cwd : Bytes) (t : Template) (w : World) (op : ROp) :
+    (step cwd t w op).1 = w ∨ MicroStep w (step cwd t w op).1 := by
+  cases op with
+  | str name data => left; rfl
+  | evs src data => right; exact .store w false
+  | evf path data =>
+    right
+    simp only [C16.step, evaluateFile]
+    split <;> exact .store w false
+  | resp name data =>
+    simp only [C16.step]
+    unfold tplResponse
+    cases tplString w t name data with
+    | ok out => left; rfl
+    | panic why => left; rfl
+    | oof => left; rfl
+    | fail f =>
+      simp only
+      split
+      · cases tplString w t w.cfg.errPage [] <;> (left; rfl)
+      · have hw : (errorPage w f cwd).1 = { w with uses := false } := rfl
+        cases h : errorPage w f cwd with
+        | mk w' r =>
+          rw [h] at hw
+          simp only at hw
+          subst hw
+          cases r <;> (right; exact .store w false)
+
+/-- under any interleaving, only the flag differs from the initial state -/
+theorem reachable_frame (w0 w : World) (h : Reachable w0 w) : SameButFlag w w0 := by
+  induction h with
+  | init => exact ⟨rfl, rfl, rfl⟩
+  | step w w' _ hs ih =>
+    cases hs with
+    | store v => exact ih
+
+/-- whole calls of other goroutines, in any number and order, stay inside the reachable set -/
+theorem calls_stay_reachable (cwd : Bytes) (t : Template) (w0 : World) :
+    ∀ (ops : List ROp) (w : World), Reachable w0 w → Reachable w0 (run cwd t w ops)
+  | [], w, h => h
+  | op :: r, w, h => by
+    show Reachable w0 (run cwd t (step cwd t w op).1 r)
+    rcases operations_are_flag_stores cwd t w op with he | hm
+    · rw [he]; exact calls_stay_reachable cwd t w0 r w h
+    · exact calls_stay_reachable cwd t w0 r _ (.step w _ h hm)
+
+/-- **every call returns exactly what it returns when run alone**: in every state that any
+    interleaving of concurrent renders can produce — between any two steps of this call and of the
+    others — the observation of the call (output, error, error page) is the one on the initial state -/
+theorem concurrent_result_is_sequential (cwd : Bytes) (t : Template) (w0 w : World) (h : Reachable w0 w) (op : ROp) :
+    (step cwd t w op).2 = (step cwd t w0 op).2 :=
+  obs_congr cwd t w w0 (reachable_frame w0 w h) op
+
+/-- this includes failing renders that produce the built-in error page: the page is computed from
+    the configuration and the failure only -/
+theorem error_page_is_sequential (cwd : Bytes) (w0 w : World) (h : Reachable w0 w) (f : Fail) :
+    (errorPage w f cwd).2 = (errorPage w0 f cwd).2 := by
+  obtain ⟨h1, h2, _⟩ := reachable_frame w0 w h
+  unfold errorPage evaluateString errorPageData
+  simp only [h1, h2]
+
+/-- the facts about the real sources this rests on (regenerated and re-checked on every run) -/
+theorem shared_writes_on_render_paths_are_atomic_flag_stores :
+    Gen.renderPathWrites.all (fun w => w.2.1 == "textwire.usesTemplates" && w.2.2 == "atomic") = true :=
+  FactsOk.renderPathWrites_ok
+
+/-- non-vacuity: a state reached by three concurrent stores -/
+example : Reachable ({} : World) { ({} : World) with uses := true } :=
+  .step _ _ (.step _ _ (.step _ _ .init (.store _ true)) (.store _ false)) (.store _ true)
 
 end Tw.C15
